@@ -212,6 +212,7 @@ Proof.
   - apply H3.
   - rewrite H4. apply H3.
   - rewrite H4. reflexivity.
+  - rewrite H4. apply H3.
 Qed.
 
 (* tr never fails under a good table, on `<>`-free input or when "<>" is mapped *)
@@ -566,3 +567,9 @@ Lemma pre_ne_table_fails :
   table_ok pre_ne_table = true /\ ne_ok pre_ne_table = false /\
   tr pre_ne_table (EBin BNe (ERef (RVar 1%positive)) (ERef (RVar 2%positive))) = Err E_notable.
 Proof. vm_compute. repeat split; reflexivity. Qed.
+
+(* affine loop subscripts: at the iteration with index value v the gathered CasADi element of
+   x[a*i + b] is the Modelica element x[a*v + b] (1-based), for any integers a, b *)
+Lemma affine_subscript rm rc x a b v :
+  env_rel rm rc -> c_sym (tr_ref (RAff x a b)) (with_ci rc v) = m_arr rm x (a * v + b).
+Proof. intros (_ & _ & H3 & _). simpl. apply H3. Qed.
